@@ -7,7 +7,7 @@
 package plugin
 
 //@ define LOG emits, last_level, last_msg, last_args
-//@ define START_EFFECTS pool_der, drain_spawned, scanning, heap, launches, kills, rf_calls, launched, cancelled, wg_count, hdata, open_files, sc_checks, sel_reached, conns_open, rd_done, $LOG
+//@ define START_EFFECTS pool_der, drain_spawned, scanning, s1_killed, heap, launches, kills, rf_calls, launched, cancelled, wg_count, hdata, open_files, sc_checks, sel_reached, conns_open, rd_done, $LOG
 //@ define CLIENT_EFFECTS $START_EFFECTS, yopens, yaccepts, tokens, creg
 //@ ghost launched: map[Int]Int
 //@ ghost sc_checks: Int
@@ -121,6 +121,7 @@ package plugin
 //@   at call cmdrunner.NewCmdRunner#1 assert !is_control(c.config.MagicCookieKey) && cmd0 != nil ==> (!c.config.GRPCBrokerMultiplex ==> same_eff(seq(cmd.Env), env0, "PLUGIN_MULTIPLEX_GRPC")) && (!c.config.AutoMTLS ==> same_eff(seq(cmd.Env), env0, "PLUGIN_CLIENT_CERT"))   [C17.host]
 //@   at call cmdrunner.NewCmdRunner#1 assert c.config.SkipHostEnv && cmd0 != nil ==> (forall k: Str :: eff_has(seq(cmd.Env), k) ==> eff_has(env0, k) || is_control(k) || k == c.config.MagicCookieKey)   [C17.skip]
 //@   local scanning: Bool := false
+//@   local s1_killed: Bool := false
 //@   at call (runner.Runner).Start#1 bind tlsL: Ref := c.config.TLSConfig
 //@   ensures c.config.AutoMTLS && a0 == nil && c.config.Reattach == nil && err == nil ==> c.config.TLSConfig != nil && c.config.TLSConfig == tlsL   [C12.client] [C14.tls]
 //@   at go#3 set scanning := true
@@ -528,6 +529,11 @@ package plugin
 
 //@ func (*Client).Start$1
 //@   inline
+//@   recovers
+//@   may_panic
+//@   after call recover#1 set s1_killed := false
+//@   after call (runner.Runner).Kill#1 set s1_killed := true
+//@   at panic#1 assert s1_killed   [C05.panic]
 //@   at call (runner.Runner).Kill#1 assert arg0 == ctx_background   [C05.kill]
 
 //@ ghost drain_spawned: Int
@@ -1176,6 +1182,7 @@ package plugin
 //@   ensures closed(s.quit)   [C09.exit] [C03.c]
 
 //@ func (*gRPCBrokerClientImpl).StartStream
+//@   at call (plugin.GRPCBrokerClient).StartStream#1 assert !has_deadline(arg0)   [C07.stream] [C09.exit]
 //@   nopanic [C07.total] [C03.d] [C20.nopanic]
 //@   bounded peer-dead [C09.timer] [C03.c]
 //@   wait select#1 ends with doneCh (stream context) or quit
@@ -1243,6 +1250,9 @@ package plugin
 //@   at call (*x509.CertPool).AppendCertsFromPEM#1 assert recv == pool && str(arg0) == getenv("PLUGIN_CLIENT_CERT")   [C12.server]
 //@   at call (ServerProtocol).Init#1 assert tlsConfig != nil && pt == "netrpc" ==> tls_cfg(listener) == tlsConfig   [C12.wrap]
 //@   at call (ServerProtocol).Init#1 assert tlsConfig != nil && pt == "grpc" ==> unbox(server, "*GRPCServer").TLS == tlsConfig   [C12.wrap]
+//@   after call (ServeConfig).TLSProvider#1 bind ptls: Ref := ret0
+//@   at call (ServerProtocol).Init#1 assert opts.TLSProvider != nil && ptls == nil && getenv("PLUGIN_CLIENT_CERT") != "" ==> tlsConfig != nil && tlsConfig == tc && tc.ClientAuth == 4 && tc.ClientCAs == pool   [C12.server]
+//@   at call (ServerProtocol).Init#1 assert opts.TLSProvider != nil && ptls != nil ==> tlsConfig == ptls   [C12.server]
 //@   at call (ServerProtocol).Init#1 assert opts.TLSProvider == nil && getenv("PLUGIN_CLIENT_CERT") != "" ==> tlsConfig != nil && tlsConfig == tc && tc.ClientAuth == 4 && tc.ClientCAs == pool && pool_pem(pool) == getenv("PLUGIN_CLIENT_CERT") && tc.MinVersion >= 771   [C12.server]
 //@   at call (ServerProtocol).Init#1 assert opts.TLSProvider == nil && getenv("PLUGIN_CLIENT_CERT") == "" ==> tlsConfig == nil   [C12.server]
 //@   at call (ServerProtocol).Serve#1 assert arg0 == listener && recv == server   [C12.wrap]
@@ -1318,9 +1328,15 @@ package plugin
 //@   bounded peer-dead [C03.c]
 //@   wait call io.Copy#1 copies from an in-memory reader into the caller-supplied sync writer; it ends when that writer accepts the chunk (caller-owned, assumed non-blocking)
 //@   requires c.log != nil && stdout != nil && stderr != nil
-//@   modifies heap_fresh, hdata, rd_done, $LOG
+//@   modifies heap_fresh, hdata, rd_done, $LOG, run_pend
 //@   loop#1 frame fresh_only
 //@   after call (plugin.GRPCStdio_StreamStdioClient).Recv#1 bind sd: Ref := ret0
+//@   local run_pend: Bool := false
+//@   loop#1 invariant !run_pend
+//@   at call (plugin.GRPCStdio_StreamStdioClient).Recv#1 assert !run_pend   [C11.demux]
+//@   after call (plugin.GRPCStdio_StreamStdioClient).Recv#1 set run_pend := ret1 == nil
+//@   after call (hclog.Logger).Warn("unknown channel, dropping")#1 set run_pend := false
+//@   after call io.Copy#1 set run_pend := false
 //@   after call bytes.NewReader#1 bind brd: Ref := ret
 //@   at call bytes.NewReader#1 assert arg0 == cast(sd, "*plugin.StdioData").Data   [C11.demux]
 //@   at call io.Copy#1 assert cast(sd, "*plugin.StdioData").Channel == 1 ==> arg0 == stdout   [C11.demux]
